@@ -74,4 +74,20 @@ PROPS["C05"] = dict(
     assumptions=["the executing contract's own address is an internal Quai address (it exists in this zone's state, C16)"],
 )
 
+PROPS["C14"] = dict(
+    lean_modules=["QuaiVerif.Props.C14"],
+    areas=[dict(name="codec", n_quick=2500, n_thorough=40000, seeds_thorough=3, n_search=8000)],
+    facts=["proto_messages"],
+    rule="a case is one generated object: Quai tx (really signed; optional to/data/access list with several tuples and keys/work fields), External tx, Qi tx "
+         "(1-3 inputs, 0-3 outputs, Schnorr signature), Header (every Set* method driven through reflection with boundary-width integers, all contexts), "
+         "WorkObjectHeader (both sides of the KawPow fork), UTXO entry; encoded by the real ProtoEncode+proto.Marshal. Every case non-trivial; distinct by sub-seed",
+    level_text="Varint and wire-field round trip, byte-identical re-encoding and injectivity of the protobuf wire encoding are Lean theorems for all field lists "
+               "(so hash-of-encoding binds every encoded field under an injective hash); the message schemas are regenerated from the .proto sources; the Lean "
+               "decoder's dump of the real bytes must equal protobuf-go's; per-type glue (ProtoEncode/ProtoDecode/JSON/hash) is checked by round-trip oracles.",
+    level_note="Trusted: Lean kernel, .proto parser of the extractor, protobuf-go reflection as the reference dump. Modelled not verified: the per-type "
+               "ProtoEncode/ProtoDecode glue is tied by T3 round-trip/fingerprint oracles (decode(encode x) = x via getters/JSON, re-encode identical, hash "
+               "stable over wire and JSON, single-field mutation changes the hash), not by a Lean model of each type. RLP, receipts, work-object bodies, p2p envelopes not yet covered.",
+    assumptions=["keccak256 injective (hypothesis hH of C14_hash_binds_fields)", "varints below 2^64 (protobuf-go rejects longer ones; the model has no bound)"],
+)
+
 NOT_APPLICABLE = {}
